@@ -248,7 +248,15 @@ def _empty_result(part_name):
 def run_case(part, case, res, nontriv, classes, known, excluded, notes):
     """Run one case; returns list of *new* (sig, detail)."""
     ctx = Ctx()
+    trace = os.environ.get("VP_TRACE")
+    if trace:
+        t_ = time.time()
+        with open(trace, "a") as fh:
+            fh.write(f"START {os.getpid()} {part.name} {case_hash(case)} {canon(case)[:3000]}\n")
     part.check(case, ctx)
+    if trace:
+        with open(trace, "a") as fh:
+            fh.write(f"END {os.getpid()} {part.name} {case_hash(case)} {time.time() - t_:.1f}s\n")
     res["evaluations"] += 1 + ctx.extra_evals
     res["rejected"] += ctx.rejected
     for c in ctx.classes:
